@@ -252,7 +252,7 @@ func runShard(p *prop, ph *phase, bin, outDir, tier string, shard, shards int, e
 	cmd.Stderr = lf
 	env := append(os.Environ(), "VERIF_TIER="+tier, fmt.Sprintf("VERIF_SEED=%d", seed()), "GOTRACEBACK=all")
 	if ph.Race {
-		env = append(env, "GORACE=halt_on_error=0 log_path="+filepath.Join(outDir, fmt.Sprintf("race-%s-%d", ph.Name, shard)))
+		env = append(env, "GORACE=halt_on_error=0 exitcode=0 log_path="+filepath.Join(outDir, fmt.Sprintf("race-%s-%d", ph.Name, shard)))
 	}
 	env = append(env, ph.Env...)
 	cmd.Env = env
@@ -403,7 +403,9 @@ func runProp(id, tier, only string) int {
 				m.inc = append(m.inc, fmt.Sprintf("phase=%s shard=%d watchdog (%v) fired; log %s", ph.Name, po.shard, ph.timeout(tier), po.log))
 				continue
 			}
-			if po.crashed || (po.exit != 0 && po.res == nil) {
+			// a worker that panics still runs its deferred Finish: a non-zero exit is a crash
+			// even when a result file exists
+			if po.crashed || po.exit != 0 {
 				lg := tail(po.log, 20000)
 				what := "worker process died without a result"
 				if mm := reFatal.FindString(lg); mm != "" {
